@@ -11,9 +11,12 @@ git -C $wt checkout -- .
 git -C $wt apply "$patch" || exit 2
 cd /verif
 export VERIF_REPO=$wt
+# a build directory of its own: the clean build in target/ stays valid
+export VERIF_TARGET=target-seeded
 export VERIF_EVIDENCE_DIR=/tmp/ev-seeded; mkdir -p $VERIF_EVIDENCE_DIR
 for p in $props; do
   echo "=== $p"
   ./tools/check.sh $p quick 2>&1 | grep -E "^--- violation|^VIOLATION|^runs=|HARNESS|harness|error" | cut -c1-300
 done
 git -C $wt checkout -- .
+python3 tools/gen_shadow.py
